@@ -21,6 +21,7 @@ from mc.core import Part
 from mc.wire import SinkProtocol, pair
 
 PROPERTY = "C07"
+explorer.PROP = PROPERTY
 
 
 class _Shuffle:
